@@ -28,6 +28,8 @@ func init() {
 var c06Corpus = []string{
 	"x;//\t", "x;// \t", "x;//\u00a0", "x;//\v\f", "x //\t\ny", "//\t\nx", "{ x //\t\n}", // white-space-only comments (repaired defect)
 	"// c\n\n\nx\n\n// d\n", "a;b;c", "if (a) b; else c", "x = `a\nb`;",
+	// multi-line literals with lines made of white space other than blanks (kept by the post-processing)
+	"function f() {\n\tlet t = `a\n\t\t\n\tb`;\n\treturn t;\n}", "let tsv = `a\tb\n\t\n1\t2`;\nf(tsv);", "let w = `first\r\n\r\nthird`;", "s = \"a\\\n\t\\\nb\";",
 }
 
 func genC06(r *rng, n int, tier string) []string {
